@@ -124,6 +124,15 @@ func judge(c Case, w *vkit.W) {
 			out("Sprintf(%e)", fmt.Sprintf("%e", orig), ext)
 			out("Sprintf(%v)", fmt.Sprintf("%v", orig), ext)
 			out("Sprint", fmt.Sprint(orig), ext)
+			// the same verb reaches the value inside containers and through the other print functions
+			out("Sprintf(%+v)", fmt.Sprintf("%+v", orig), ext)
+			out("Sprintln", fmt.Sprintln(orig), ext+"\n")
+			out("Sprintf(%v) of a slice", fmt.Sprintf("%v", []date.Date{orig, orig}), "["+ext+" "+ext+"]")
+			out("Sprintf(%v) of a struct", fmt.Sprintf("%v", struct{ D date.Date }{orig}), "{"+ext+"}")
+			out("Sprintf(%+v) of a struct", fmt.Sprintf("%+v", struct{ D date.Date }{orig}), "{D:"+ext+"}")
+			out("Sprintf(%s) of a map", fmt.Sprintf("%s", map[string]date.Date{"k": orig}), "map[k:"+ext+"]")
+			out("Sprintf(%v) of an interface value", fmt.Sprintf("%v|%s", any(orig), fmt.Stringer(orig)), ext+"|"+ext)
+			out("Sprintf(%b) of a slice", fmt.Sprintf("%b", []date.Date{orig}), "["+ref.DateText(c.Y, c.M, c.D, true)+"]")
 			jb, err := json.Marshal(jholder{D: orig, P: &orig, L: []date.Date{orig}})
 			if err != nil {
 				w.Fail(c, "formatter-error", "json.Marshal: "+err.Error())
